@@ -774,13 +774,19 @@ impl<E: Effect> Executor<E> {
         // Inject heap data into the result value
         let injected_result = self.inject_heap_data(result, &heap)?;
 
-        // Store the result in the process's awaiting map (retaining as it enters storage).
+        // Store the result in the process's awaiting map (retaining as it enters storage). The
+        // same answer arrives once per await the process has issued on this target (a select that
+        // timed out, then a second await): the copy it displaces leaves storage.
         if self.get_process(awaiter).is_some() {
             self.retain(&injected_result);
-            self.get_process_mut(awaiter)
+            let displaced = self
+                .get_process_mut(awaiter)
                 .unwrap()
                 .awaiting
                 .insert(awaited, Some(injected_result));
+            if let Some(Some(displaced)) = displaced {
+                self.release(&displaced);
+            }
         }
 
         // Re-queue awaiter to retry its Select instruction
